@@ -309,7 +309,8 @@ func ChainViews(img tarimg.Image) []View {
 
 // Consistent reports whether the entries of a layer form a tree: no path is written twice
 // (a whiteout of p and an entry for p may coexist), no non-directory entry is a proper
-// ancestor of another entry or carries an opaque marker. The property checks only generate
+// ancestor of another entry or carries an opaque marker, no marker lies inside a directory
+// that the same layer whites out. The property checks only generate
 // consistent layers (tar semantics of in-layer duplicates are not specified).
 func Consistent(l tarimg.Layer) bool {
 	puts := map[string]string{}
@@ -342,6 +343,20 @@ func Consistent(l tarimg.Layer) bool {
 	for _, p := range all {
 		for a := path.Dir(p); a != "/" && a != "."; a = path.Dir(a) {
 			if k, ok := puts[a]; ok && k != tarimg.KindDir {
+				return false
+			}
+		}
+	}
+	// a marker inside a directory that the same layer whites out is meaningless (the lower
+	// contents it would act on are removed anyway) and what it implies is unspecified
+	for w := range wh {
+		for m := range wh {
+			if m != w && Under(m, w) {
+				return false
+			}
+		}
+		for d := range opq {
+			if d == w || Under(d, w) {
 				return false
 			}
 		}
